@@ -111,7 +111,14 @@ Definition spec_value_ok (fd : Z * list Z) (args : list jarg) (sh : shape) (out 
    9 result not pruned (stores a value equal to its fill value)
    10 result format differs from the model's output-format rule
    11 result agrees with the Spec but its representation differs from the model's
-   12 the model itself disagrees with the Spec on this case (model/proof bug — never expected) *)
+   12 the model itself disagrees with the Spec on this case (model/proof bug — never expected)
+   13 everything above holds, but the fill value is not f(fill values of the sparse operands, scalars):
+      a 0-d sparse operand is densified first, so its VALUE is used instead of its fill value *)
+Definition scalars_only (args : list jarg) : bool :=
+  forallb (fun a => match a with JDn d => match d_shape d with [] => true | _ => false end | _ => true end) args.
+Definition property_fill (fd : Z * list Z) (args : list jarg) : Z :=
+  ftable fd (map (fun a => match a with JSp _ c => c_fill c | JDn d => hd 0 (d_flat d) end) args).
+
 Definition judge_api (c : api_case) : Z :=
   let '(fd, args, out) := c in
   match out_format (map jfmt args) with
@@ -134,7 +141,8 @@ Definition judge_api (c : api_case) : Z :=
       else if negb (sarr_prunedb out) then 9
       else if negb (fmt_ok ofm out) then 10
       else match sarr_sorted_coo out with
-           | Some c' => if coo_eqb c' r then 0 else 11
+           | Some c' => if negb (coo_eqb c' r) then 11
+                        else if scalars_only args && negb (c_fill r =? property_fill fd args) then 13 else 0
            | None => 11
            end
     end
